@@ -5,6 +5,8 @@
 package mat
 
 import (
+	"math"
+
 	"gonum.org/v1/gonum/blas/blas64"
 	"gonum.org/v1/gonum/lapack"
 	"gonum.org/v1/gonum/lapack/lapack64"
@@ -180,7 +182,12 @@ func (svd *SVD) Cond() float64 {
 	if !svd.succFact() {
 		panic(badFact)
 	}
-	return svd.s[0] / svd.s[len(svd.s)-1]
+	smin := svd.s[len(svd.s)-1]
+	if smin == 0 {
+		// A is singular; avoid 0/0 for the zero matrix.
+		return math.Inf(1)
+	}
+	return svd.s[0] / smin
 }
 
 // Values returns the singular values of the factorized matrix in descending order.
